@@ -992,7 +992,14 @@ func c19JudgeFile(md string, o c19Opt, exp *c19Expect) string {
 	var cerr error
 	if p := guard(func() {
 		opts := o.mk()
-		cerr = markdown.NewConverter(opts).ConvertFile(in, out, opts)
+		conv := markdown.NewConverter(opts)
+		// the converter has failed twice before: an input that does not exist, and an input whose output cannot be
+		// written (the target lies below a regular file); neither may leave anything behind for the next call
+		decoy := filepath.Join(dir, "decoy.md")
+		os.WriteFile(decoy, []byte(c19GenericDecoy), 0o644)
+		conv.ConvertFile(filepath.Join(dir, "no-such-input.md"), filepath.Join(dir, "never.docx"), opts)
+		conv.ConvertFile(decoy, filepath.Join(in, "below-a-file", "out.docx"), opts)
+		cerr = conv.ConvertFile(in, out, opts)
 	}); p != "" {
 		return "panic|" + panicClass(p)
 	}
